@@ -337,6 +337,9 @@ class Project:
         return drawn
 
 
+LAST_TREES = []        # the structured blobs of the project built last (for the printer tie)
+
+
 def tree_bytes(node):
     from translator import umlblob as tu
     return tu.print_node(node)
@@ -351,6 +354,7 @@ def project_rows(rng, cd, name=None):
     name = (name or cd.name).encode()
     ms = [(i, ty, parent, nm, tree_bytes(node)) for (i, ty, parent, nm, node) in drawn] + \
          [(i, ty, parent, nm, tree_bytes(node)) for (i, ty, parent, nm, node) in pr.rows]
+    LAST_TREES[:] = [node for (_i, _ty, _p, _nm, node) in drawn + pr.rows]
     es = [(pr.new_id(), ty, did, i) for (i, ty, _p, _n, _node) in drawn]
     rng.shuffle(ms)
     return ([(did, b"ClassDiagram", name)], es, ms), name
@@ -373,3 +377,150 @@ def modid(view, cd=None):
     c, p, a, i = view
     names = sorted({x for k in c for x in k[2].split(b"::") if x}) if cd is not None else sorted(x[1] for x in p)
     return [c, names, [x[1:] for x in a], [x[1:] for x in i]]
+
+
+def tree_v(node):
+    """a structured blob (the tuples of translator/umlblob.py and of Project) as a kmodel value for ub_print_node"""
+    _t, i, name, ty, items, tail = node
+    out = []
+    for it in items:
+        k = it[0]
+        if k == "field":
+            out.append([b"F", it[1], it[2], it[3]])
+        elif k == "refs":
+            out.append([b"R", it[1], it[2], it[3], it[4], it[5], list(it[6])])
+        elif k == "children":
+            out.append([b"C", it[1], it[2], it[3], it[4], it[5], [tree_v(n) for n in it[6]]])
+        elif k == "raw":
+            out.append([b"W", it[1]])
+        else:
+            out.append([b"I", it[1]])
+    return [i, [] if name is None else [name], ty, out, tail]
+
+
+# ---------------------------------------------------------------- object graph -> SEMANTIC diagram (Model/UmlSem.v: sdiagram) as a kmodel value
+
+VIS_B = {"public": b"71", "protected": b"67", "private": b"66"}
+NOISE_POOL = [(b"_modelEditable", b"T"), (b"pmAuthor", b'"kohja"'), (b"pmCreateDateTime", b'"1585312511837"'), (b"lastModifiedTime", b"1585318039382"),
+              (b"_modelViews", b"NULL"), (b"pmLastModified", b'"1585318069400"')]
+
+
+class Semantic:
+    """builds the value of an sdiagram from a (normalised, association-free) class diagram object graph; ids are invented
+    except those of the classes; every layout is a random permutation of the present properties and some noise"""
+
+    def __init__(self, rng):
+        self.rng = rng
+        self.used = set()
+        self.refs = {}          # (kind, name) -> id
+        self.ref_rows = []
+
+    def new_id(self):
+        while True:
+            s = "".join(self.rng.choice(vs.IDCH) for _ in range(16)).encode()
+            if s not in self.used:
+                self.used.add(s)
+                return s
+
+    def layout(self, tags):
+        slots = [[b"T", t.encode()] for t in tags] + [[b"N", k, v] for k, v in self.rng.sample(NOISE_POOL, self.rng.randint(0, 3))]
+        self.rng.shuffle(slots)
+        return slots
+
+    def ref(self, name, ty=b"DataType"):
+        key = (ty, name)
+        if key not in self.refs:
+            i = self.new_id()
+            self.refs[key] = i
+            self.ref_rows.append([i, e(name), ty, [], self.layout([])])
+        return self.refs[key]
+
+    def path(self, type_name):
+        return [self.ref(part) for part in type_name.split("::")]
+
+    def param(self, p):
+        basic = "::" not in p["type"] and self.rng.random() < 0.5
+        tags = ["typestring" if basic else "type"] + (["dir"] if p["direction"] in ("in", "out") else []) + \
+               [t for t, v in (("typemod", p["modifier"]), ("default", p["defaultvalue"]), ("mult", p["multiplicity"])) if v]
+        return [self.new_id(), e(p["name"]), [e(p["type"])] if basic else [], [] if basic else self.path(p["type"]),
+                e(p["direction"]) if p["direction"] in ("in", "out") else b"", e(p["modifier"]), e(p["defaultvalue"]), e(p["multiplicity"]), self.layout(tags)]
+
+    def op(self, o):
+        tags = ["vis"] + (["ret"] if o.RETURN_TYPE != "void" else []) + (["typemod"] if o.RETURN_TYPE_MODIFIER else []) + \
+               (["abstract"] if o.VIRTUAL else []) + (["query"] if o.IS_CONST else []) + (["scope"] if o.IS_STATIC else []) + \
+               (["doc"] if o.USER_COMMENTS else []) + (["child"] if o.PARAMETERS else [])
+        return [self.new_id(), e(o.NAME), [VIS_B[o.VISIBILITY]], self.path(o.RETURN_TYPE) if o.RETURN_TYPE != "void" else [], e(o.RETURN_TYPE_MODIFIER),
+                bb(o.VIRTUAL), bb(o.IS_CONST), bb(o.IS_STATIC), e(o.USER_COMMENTS), [self.param(p) for p in o.PARAMETERS], self.layout(tags)]
+
+    def attr(self, a):
+        if a.INITIAL_VALUE is not None and not a.INITIAL_VALUE:
+            raise Unencodable("empty initial value")
+        vis = [] if (a.VISIBILITY == "private" and self.rng.random() < 0.5) else [VIS_B[a.VISIBILITY]]
+        tags = (["vis"] if vis else []) + (["type"] if a.TYPE != "void" else []) + \
+               [t for t, v in (("typemod", a.TYPE_MODIFIER), ("mult", a.MULTIPLICITY), ("doc", a.USER_COMMENTS), ("init", a.INITIAL_VALUE)) if v] + \
+               [t for t, f in (("setter", a.HAS_SETTER), ("getter", a.HAS_GETTER), ("scope", a.IS_STATIC), ("readonly", a.IS_CONST)) if f]
+        return [self.new_id(), e(a.NAME), vis, self.path(a.TYPE) if a.TYPE != "void" else [], e(a.TYPE_MODIFIER), e(a.MULTIPLICITY), e(a.USER_COMMENTS),
+                e(a.INITIAL_VALUE or ""), bb(a.HAS_SETTER), bb(a.HAS_GETTER), bb(a.IS_STATIC), bb(a.IS_CONST), self.layout(tags)]
+
+    def klass(self, c):
+        st = []
+        abstract = False
+        if c.PURE_VIRTUAL_INTERFACE:
+            if self.rng.random() < 0.7:
+                st.append(self.ref("Interface", b"Stereotype"))
+            else:
+                abstract = True
+        if c.AUTOGEN:
+            st.append(self.ref("autogen", b"Stereotype"))
+        if c.IS_ENUM:
+            st.append(self.ref("enumeration", b"Stereotype"))
+        if c.IS_STRUCT:
+            st.append(self.ref("PackedStruct" if c.IS_STRUCT_PACKED else "Struct", b"Stereotype"))
+        elif c.IS_STRUCT_PACKED:
+            raise Unencodable("packed without struct")
+        if c.ENUM_LITERALS and not c.IS_ENUM:
+            raise Unencodable("literals without enumeration")
+        members = vs.merge(self.rng, [[b"op", self.op(o)] for o in c.OPERATIONS], [[b"attr", self.attr(a)] for a in c.ATTRIBUTES])
+        members = vs.merge(self.rng, members, [[b"lit", self.new_id(), e(l), self.layout([])] for l in c.ENUM_LITERALS])
+        tags = (["stereo"] if st else []) + (["abstract"] if abstract else []) + (["doc"] if c.USER_COMMENTS else []) + (["child"] if members else [])
+        return [e(c.ID), e(c.NAME), [], st, bb(abstract), e(c.USER_COMMENTS), members, self.layout(tags)]
+
+    def build(self, cd, name=None):
+        for cid in cd.classes:
+            self.used.add(cid.encode())
+        nss = []
+        for c in cd.classes.values():
+            parts = c.NAMESPACE.split("::") if c.NAMESPACE else []
+            for k in range(len(parts)):
+                if tuple(parts[:k + 1]) not in nss:
+                    nss.append(tuple(parts[:k + 1]))
+        pkg = {ns: self.new_id() for ns in nss}
+
+        def cpath(cid):
+            c = cd.classes[cid]
+            parts = c.NAMESPACE.split("::") if c.NAMESPACE else []
+            return [pkg[tuple(parts[:k + 1])] for k in range(len(parts))] + [cid.encode()]
+        shapes = [[b"class", self.klass(c)] for c in cd.classes.values()]
+        for ns in nss:
+            paths = [cpath(cid) for cid, c in cd.classes.items() if c.NAMESPACE == "::".join(ns)]
+            shapes.append([b"package", [pkg[ns], e(ns[-1]), [], paths, self.layout(["child"] if paths else [])]])
+        for i in cd.inheritence.values():
+            if i.CLASS_FROM_ID not in cd.classes or i.CLASS_TO_ID not in cd.classes:
+                raise Unencodable("inheritance to a class outside the diagram")
+            shapes.append([b"inh", [self.new_id(), [], bb(i.IS_REALIZATION), cpath(i.CLASS_FROM_ID), cpath(i.CLASS_TO_ID), self.layout(["from", "to"])]])
+        if self.rng.random() < 0.3:
+            shapes.append([b"other", self.new_id(), [], b"Usage", [], self.layout([])])
+        # shapes in any drawing order, each kind keeping its relative order
+        kind = lambda s: s[0]  # noqa: E731
+        slots = [kind(s) for s in shapes]
+        self.rng.shuffle(slots)
+        pools = {k: iter([s for s in shapes if kind(s) == k]) for k in set(slots)}
+        shapes = [next(pools[k]) for k in slots]
+        return [self.new_id(), e(name or cd.name), [[self.new_id(), s] for s in shapes], self.ref_rows]
+
+
+def semantic_value(rng, cd, name=None):
+    """(kmodel value of the sdiagram, name) for the object graph cd (normalised in place; associations dropped: not in the domain)"""
+    normalise(cd)
+    cd.associations.clear()
+    return Semantic(rng).build(cd, name), (name or cd.name).encode()
